@@ -140,6 +140,8 @@ def do_check(prop, mod, tier, seed, workdir):
     # ---- merge ----
     evaluations = 0
     nontrivial = set()
+    enumerated = 0
+    capped = False
     samples = []
     counters = collections.Counter()
     sets = collections.defaultdict(set)
@@ -150,6 +152,8 @@ def do_check(prop, mod, tier, seed, workdir):
         res = results[shard]
         evaluations += res['evaluations']
         nontrivial.update(res['nontrivial'])
+        enumerated += res.get('enumerated', 0)
+        capped = capped or res.get('capped', False)
         if len(samples) < 3:
             samples.extend(res['samples'][:1])
         counters.update(res['counters'])
@@ -179,8 +183,9 @@ def do_check(prop, mod, tier, seed, workdir):
             inconclusive.append(
                 f"monitor counter {name}={got} below the required minimum {minimum} "
                 + "(deciding monitor not reached often enough)")
-    if len(nontrivial) < 2 and not violations:
-        inconclusive.append(f"only {len(nontrivial)} distinct non-trivial cases")
+    n_distinct = len(nontrivial) + enumerated
+    if n_distinct < 2 and not violations:
+        inconclusive.append(f"only {n_distinct} distinct non-trivial cases")
 
     # ---- report ----
     unknown = [v for v in violations if v['key'] not in known]
@@ -212,7 +217,10 @@ def do_check(prop, mod, tier, seed, workdir):
     wall = time.monotonic() - t0
     coverage = {
         'evaluations': evaluations,
-        'distinct_nontrivial': len(nontrivial),
+        'distinct_nontrivial': n_distinct,
+        'distinct_counting': {
+            'hashed': len(nontrivial), 'distinct_by_enumeration': enumerated,
+            'lower_bound_only': capped},
         'rule': mod.RULE,
         'samples': samples,
         'monitor_counters': dict(sorted(counters.items())),
@@ -244,7 +252,7 @@ def do_check(prop, mod, tier, seed, workdir):
         json.dump(evidence, f, indent=1, sort_keys=True)
         f.write('\n')
     print(f"{prop} {tier} seed={seed}: {coverage['verdict']}; {evaluations} cases, "
-          f"{len(nontrivial)} distinct non-trivial, {len(unknown)} violation(s), "
+          f"{n_distinct} distinct non-trivial, {len(unknown)} violation(s), "
           f"{wall:.1f}s")
     keyc = ', '.join(f"{k}={v}" for k, v in sorted(counters.items())[:14])
     print(f"  observed: {keyc}")
